@@ -23,6 +23,8 @@ OBLIGATIONS = [
     (P + "filter_validates_encoded", "clause 1 with a declared ASCII-compatible encoding, for every validator e with EncOk e r"),
     (P + "single_byte_encOk", "EncOk holds for every single-byte charset validator (per-byte test accepting the escape bytes; replacement NUL or accepted byte)"),
     (P + "ascii_sync_encOk", "EncOk for every validator synchronised at ASCII bytes (AsciiSync; UTF-8 validators are of this kind) whose pre-filter yields valid text"),
+    (P + "uri_validator_scheme_whitelist", "model of uri_parser/uri_validator_functor (scheme expression an arbitrary predicate): an accepted text with a scheme has "
+                                           "an allowed scheme and the validator is not the relative one; absolute_uri accepts only texts with a scheme"),
     (P + "htmlCaseOk_needed_counterexample", "the HtmlCaseOk hypothesis cannot be dropped for the abstract Rules type (concrete witness, by decide)"),
     (P + "exRules_ok", "non-vacuity: a concrete rule set satisfying RulesOk (examples in Props.lean evaluate validate/filter on it)"),
 ]
@@ -381,6 +383,76 @@ def gen_cases(c, n_rules, per_rule):
     return cases
 
 
+URI_PARTS = [b"http", b"https", b"ftp", b"javascript", b"mailto", b"a", b"HTTP", b"x-y.z+1", b"", b"1a", b"h\x00"]
+URI_CH = [b":", b"/", b"//", b"?", b"#", b"@", b"&amp;", b"&apos;", b"&", b"%41", b"%4", b"%", b"a", b"Z", b"0", b"1", b"2", b"25", b"255", b"127.0.0.1", b".", b"-", b"_", b"~", b"!", b"$", b"'", b"(", b")",
+          b"*", b"+", b",", b";", b"=", b"[", b"]", b"[::1]", b" ", b"<", b">", b"\"", b"\\", b"^", b"|", b"{", b"\x00", b"\xc3\xa9", b"example.com", b"user:pw@", b":80", b"path/to", b"q=1", b"frag"]
+
+
+def gen_uri_cases(c, n):
+    rng = c.rng
+    cases = []
+    kinds = ("uri", "uri", "absuri", "reluri")
+    for _ in range(n):
+        r = rng.random()
+        if r < 0.5:
+            v = rng.choice(URI_PARTS) + rng.choice((b":", b":", b"", b"://")) + b"".join(rng.choice(URI_CH) for _ in range(rng.randrange(0, 6)))
+        elif r < 0.8:
+            v = b"".join(rng.choice(URI_CH) for _ in range(rng.randrange(0, 7)))
+        else:
+            v = rng.choice(URIS + GOOD_URIS)
+            if rng.random() < 0.5:
+                v = mutate(rng, v)
+        k = rng.choice(kinds)
+        sch = rng.choice(SCHEMES)
+        cases.append("U %s %s %s" % (k, hx(sch), hexs(v)))
+    # all strings of length <= 3 over a small URI alphabet
+    alpha = [b"a", b":", b"/", b"?", b"#", b"@", b"1", b"&", b"%", b".", b" "]
+    lim = 4 if c.tier == "thorough" else 3
+    def rec(prefix, d):
+        for k in kinds[1:]:
+            cases.append("U %s %s %s" % (k, hx(b"[a-z]+"), hexs(prefix)))
+        if d:
+            for a in alpha:
+                rec(prefix + a, d - 1)
+    rec(b"", lim)
+    return list(dict.fromkeys(cases))
+
+
+def run_uri(c, hbin, model, cases):
+    rc, out_i, err_i = c.run_lines(hbin, cases)
+    n = min(len(out_i), len(cases))
+    impl, tables = [], []
+    for k in range(n):
+        a, t = out_i[k].rsplit(" T=", 1) if " T=" in out_i[k] else (out_i[k], "-")
+        impl.append(a)
+        tables.append(t)
+    rc_m, out_m, err_m = c.run_lines(model, [cases[k] + " " + tables[k] for k in range(n)])
+    diffs = [(k, cases[k], impl[k], out_m[k] if k < len(out_m) else "<none>") for k in range(n)
+             if k >= len(out_m) or impl[k] != out_m[k]]
+    c.evaluations += len(cases)
+    c.traces_validated += min(n, len(out_m))
+    c.log(f"correspond[uri_parser]: {len(cases)} cases, {len(diffs)} diffs, impl rc={rc}, model rc={rc_m}")
+    crashed = {"rc": rc, "stderr": err_i, "case": cases[len(out_i)] if len(out_i) < len(cases) else None} if rc != 0 else None
+    accepted = sum(1 for a in impl if a == "1")
+    # judge (documented contract of the validators): absolute_uri accepts nothing without "scheme:", relative_uri nothing with it,
+    # and an accepted scheme is one the scheme regex matched
+    bad = []
+    for k in range(n):
+        if impl[k] != "1":
+            continue
+        w = cases[k].split()
+        v = unhex(w[3])
+        mm = re.match(rb"[A-Za-z][A-Za-z0-9+.-]*:", v)
+        sv = tables[k].endswith(":1")
+        if w[1] == "absuri" and not (mm and sv):
+            bad.append((k, "absolute_uri validator accepted a value without an allowed scheme"))
+        if w[1] == "reluri" and mm:
+            bad.append((k, "relative_uri validator accepted a value with a scheme"))
+        if w[1] == "uri" and mm and not sv:
+            bad.append((k, "uri validator accepted a scheme the scheme expression does not match"))
+    return diffs, crashed, accepted, bad
+
+
 def corpus_cases():
     d = os.path.join(ROOT, "gen", "corpus", "C04")
     res = []
@@ -528,7 +600,9 @@ def main():
     c.trusted += [
         "translator translate/c04.py + translate/cexpr.py (byte classes, entity sets, code point ranges, escape table, tokenizer constants, tag-kind table of xss.cpp -> Gen.lean; shape checks of the loops)",
         "hand-written control flow of Model.lean (tokenizer, tag/attribute parser, nesting, rules, filter), tied by the correspondence run on the public API",
-        "external attribute validators (booster::regex = PCRE, cppcms uri_parser): arbitrary predicates in the theorems; oracle verdicts recorded from the real library in the correspondence run",
+        "external attribute validators: booster::regex (PCRE) is an arbitrary predicate in the theorems, verdicts recorded from the real library (oracle table); "
+        "the cppcms uri_parser/uri_validator_functor is modelled by hand in Uri.lean (scheme regex = parameter), tied by its own correspondence stream and by cross-checking every "
+        "recorded verdict in the filter cases",
         "strtol on an all-digit string (modelled as exact natural number; saturation at LONG_MAX is indistinguishable: both > 0x10FFFF)",
         "std::map/std::set with the c_string comparators (modelled as last-assignment-wins lookup under byte equality / ASCII-case-insensitive equality)",
         "correspondence harness harness/c04.cpp (ASan+UBSan build of the working tree)",
@@ -554,7 +628,7 @@ def main():
         corpus = []
     else:
         corpus = corpus_cases()
-        cases = corpus + (gen_cases(c, 1500, 30) if thorough else gen_cases(c, 150, 20))
+        cases = [l for l in corpus if l.startswith("C ")] + (gen_cases(c, 1500, 30) if thorough else gen_cases(c, 150, 20))
 
     if hbin and os.path.exists(model) and cases:
         cases = list(dict.fromkeys(cases))
@@ -619,6 +693,21 @@ def main():
             # smallest differing case first
             k, cs, a, b = min(res["diffs"], key=lambda d: len(d[1]))
             c.broke("correspondence stream xss", f"{len(res['diffs'])} differing cases; smallest: {cs} input={unhex(cs.split()[6])!r} impl={a} model={b}")
+        # the URI validator on its own: model of uri_parser vs. the real one
+        if not c.replay_path:
+            ucases = [l for l in corpus if l.startswith("U ")] + gen_uri_cases(c, 20000 if thorough else 3000)
+            udiffs, ucrash, uacc, ubad = run_uri(c, hbin, model, ucases)
+            for k, what in ubad[:10]:
+                c.violation("URI validator: " + what, {"case": ucases[k], "value": repr(unhex(ucases[k].split()[3]))})
+            c.extra_cov["uri_parser_cases"] = len(ucases)
+            c.extra_cov["uri_parser_accepted"] = uacc
+            for cs in ucases:
+                pass
+            if ucrash:
+                c.violation("sanitizer abort / crash of the real URI validator", {"case": ucrash["case"], "stderr": ucrash["stderr"]})
+            if udiffs:
+                k, cs, a, b = min(udiffs, key=lambda d: len(d[1]))
+                c.broke("correspondence stream uri_parser", f"{len(udiffs)} differing cases; smallest: {cs} value={unhex(cs.split()[3])!r} impl={a} model={b}")
         if c.replay_path:
             for i, cs in enumerate(cases):
                 print("case :", cs)
